@@ -1,10 +1,9 @@
-"""Checker self-test (thorough tier): mutants of the *current* tree on scratch copies; filled in sa/mutants.py."""
+"""Checker self-test (thorough tier): text mutants of the *current* tree (sa/mutants.py), then the stored corpus of
+independently written breaking changes and behaviour-preserving refactorings (sa/corpus.py); all on scratch copies."""
 
 
 def run_for(pid):
-    try:
-        from . import mutants
-    except ImportError:
-        print("selftest: no mutant corpus built yet")
-        return 0
-    return mutants.run_for(pid)
+    from . import mutants, corpus
+    rc = mutants.run_for(pid)
+    rc2 = corpus.run_for(pid)
+    return max(rc, rc2)
